@@ -1077,8 +1077,8 @@ func (g *Gen) bigMergeCase() {
 	mode := []int{1026, 1026, 1025, 1024, 3}[g.r.Intn(5)]
 	// the first two big merges of a run are the cardinality-dependent modes with deletions crossing 1024
 	nth := g.stats["bigmerge"]
-	if nth < 2 {
-		mode = []int{1026, 1025}[nth]
+	if nth < 3 {
+		mode = []int{1026, 1026, 1025}[nth]
 	}
 	g.curMode = mode
 	g.emit("cfg chunkmode=%d", mode)
@@ -1122,11 +1122,17 @@ func (g *Gen) bigMergeCase() {
 	}
 	var drops []string
 	total := 0
-	crossing := g.chance(0.7) || nth < 2
+	// 1st and 3rd big merge of a run: deletions take the survivors below 1024; 2nd: few deletions, so that a
+	// term of every document stays above 1024 while its neighbour in the next field has a handful of hits
+	crossing := (g.chance(0.7) && nth != 1) || nth == 0 || nth == 2
+	fewDrops := nth == 1
 	for _, s := range segs {
 		nd := g.ndocs[s]
 		var xs []int
 		frac := []float64{0, 0.15, 0.3, 0.5}[g.r.Intn(4)]
+		if fewDrops {
+			frac = 0.03
+		}
 		if pre := sumInts(sizes); crossing && pre > 1024 {
 			// deletions that take the survivors below 1024 (every document has the term "common")
 			frac = 1 - float64(900+g.r.Intn(100))/float64(pre)
